@@ -111,6 +111,11 @@ func cmdFunc(args []string) {
 			for _, e := range fr.Errs {
 				fmt.Println("   GEN-ERROR:", e)
 			}
+			if os.Getenv("GVC_WARN") != "" {
+				for _, e := range fr.Warns {
+					fmt.Println("   warning:", e)
+				}
+			}
 			opts := SolveOpts{Timeout: time.Duration(*timeout) * time.Second, Seed: 1, WorkDir: wd, AllSolvers: *all}
 			results := solveFunc(fr, opts, *only)
 			nfail := 0
